@@ -187,7 +187,12 @@ pub(crate) fn inline_def_body(
     params: &ParametersCompiled<IrSpanned<ExprCompiled>>,
     body: &StmtsCompiled,
 ) -> Option<InlineDefBody> {
-    if params.params.len() == 1 && params.params[0].accepts_positional() {
+    // The call site passes exactly one positional argument: the parameter must accept it
+    // (a keyword-only parameter after a bare `*` does not).
+    if params.params.len() == 1
+        && params.params[0].accepts_positional()
+        && params.indices.num_positional == 1
+    {
         if let Some(t) = is_return_type_is(body) {
             return Some(InlineDefBody::ReturnTypeIs(t));
         }
